@@ -71,6 +71,9 @@ Check1(c, r) ==
                       ELSE IF r.primitive_root.rc = 1 /\ IsPrime(n) /\ \E g \in roots : g < r.primitive_root.v.n THEN "bad:primitive_root:not-smallest"
                       ELSE "",
                       EqSet("primitive_root_list", r.primitive_root_list, roots) >>)
+       \* larger moduli: a reported root must have order phi(n)
+       ELSE IF n > 130 /\ n <= 1000 /\ r.primitive_root.exc = "" /\ r.primitive_root.rc = 1 /\ IsInt(r.primitive_root.v)
+            THEN (IF Coprime(r.primitive_root.v.n, n) /\ Order(r.primitive_root.v.n, n) = Totient(n) THEN "" ELSE "bad:primitive_root")
        ELSE "",
        IF n >= 1 /\ n <= 300 THEN EqI("totient", r.totient, Totient(n)) ELSE "",
        IF n >= 1 /\ n <= 130 THEN EqI("carmichael", r.carmichael, Carmichael(n)) ELSE "",
